@@ -80,13 +80,13 @@ def run(ctx):
     cases = []
     d2 = small_trees(2)
     d3 = small_trees(3)
-    pick2 = d2 if not ctx.quick else rng.sample(d2, 40)
-    pick3 = rng.sample(d3, 40 if ctx.quick else 1200)
+    pick2 = d2 if not ctx.quick else rng.sample(d2, min(len(d2), 120))
+    pick3 = rng.sample(d3, 120 if ctx.quick else 1500)
     for t in pick2:
         cases += cases_for(ctx, t, 2, rng)
     for t in pick3:
         cases += cases_for(ctx, t, 3, rng)
-    for _ in range(30 if ctx.quick else 800):
+    for _ in range(90 if ctx.quick else 1000):
         depth = rng.choice([3, 4])
         cases += cases_for(ctx, rand_tree(rng, 3, depth, pz=0.2, pabs=0.3), depth, rng)
     part = family.run_family(ctx, "C09", cases, "harness.exec_transform", "TransformTrace.tla", "TransformTrace.cfg",
